@@ -437,7 +437,8 @@ class DiscriminatedUnionUnpackerBuilder(AbstractUnpackerBuilder):
                         f"unpacker = {spec.attrs_registry_name}"
                         f"[{chosen_cls}].{variant_method_name}"
                     )
-            with lines.indent("except (KeyError, AttributeError):"):
+            # TypeError: an unhashable tag value carries no registered tag
+            with lines.indent("except (KeyError, AttributeError, TypeError):"):
                 lines.append(f"variants_map = {variants_map}")
                 with lines.indent(f"for variant in {variants}:"):
                     if discriminator.variant_tagger_fn is not None:
@@ -466,7 +467,7 @@ class DiscriminatedUnionUnpackerBuilder(AbstractUnpackerBuilder):
                             "variants_map[discriminator]]"
                             f".{variant_method_name}"
                         )
-                with lines.indent("except KeyError:"):
+                with lines.indent("except (KeyError, TypeError):"):
                     lines.append(
                         "raise SuitableVariantNotFoundError("
                         f"{variants_type_expr}, {discriminator.field!r}, "
